@@ -596,7 +596,8 @@ class ConformationContainer:
             False (if group not found) or group
         """
         for group_ in self.groups:
-            if group_.atom.residue_label == group.atom.residue_label:
+            if (group_.atom.residue_label == group.atom.residue_label
+                    and group_.atom.icode == group.atom.icode):
                 if group_.type == group.type:
                     return group_
         return False
